@@ -3,16 +3,17 @@
    sent is, from then on, in exactly one place — queued / in flight at exactly one mailbox, or handled
    (one OH), or a dead letter (one OD). Stated as a flow equation per step and lifted to whole runs:
    sent = handled + dead-lettered + still pending. *)
-From MV Require Import Lib.ListX Kernel.Model.
+From MV Require Import Lib.ListX Kernel.Model Kernel.Lifecycle.
 From Coq Require Import ZifyBool ZifyNat.
 Open Scope nat_scope.
 
 Section Cons.
 Variable roles : list role.
 Variable sn : nat.                               (* the serial we follow *)
+Variable wt : ref -> nat.                        (* weight of a receiver address: 1 everywhere = all receivers; an indicator = one receiver *)
 
 Definition is_probe (m : umsg) : nat := match m with UProbe _ k => if Nat.eqb k sn then 1 else 0 | _ => 0 end.
-Definition nsys (t : ref) : nat := if is_sys t then 0 else 1.
+Definition nsys (t : ref) : nat := if is_sys t then 0 else wt t.
 Definition pend_env (e : env umsg) : nat := nsys (e_rcv e) * is_probe (e_msg e).
 Definition pend_inflight (o : option anymsg) : nat := match o with Some (MU e) => pend_env e | _ => 0 end.
 Definition pend_actor (a : actor) : nat := list_sum (map pend_env (a_userq a)) + pend_inflight (a_inflight a).
@@ -20,7 +21,7 @@ Definition pend_list (l : list actor) : nat := list_sum (map pend_actor l).
 Definition pending (s : kstate) : nat := pend_list (actors s).
 
 Definition sent1 (o : obs) : nat := match o with OS _ r k => nsys r * (if Nat.eqb k sn then 1 else 0) | _ => 0 end.
-Definition hand1 (o : obs) : nat := match o with OH _ _ (TP _) k _ => if Nat.eqb k sn then 1 else 0 | _ => 0 end.
+Definition hand1 (o : obs) : nat := match o with OH a _ (TP _) k _ => wt a * (if Nat.eqb k sn then 1 else 0) | _ => 0 end.
 Definition dead1 (o : obs) : nat := match o with OD _ r k => nsys r * (if Nat.eqb k sn then 1 else 0) | _ => 0 end.
 Definition sentc (o : list obs) := list_sum (map sent1 o).
 Definition handc (o : list obs) := list_sum (map hand1 o).
@@ -252,14 +253,15 @@ Qed.
 Definition hp (t : trig) (k : nat) : nat := match t with TP _ => if Nat.eqb k sn then 1 else 0 | _ => 0 end.
 
 Lemma handle_q_bal q s u t k snd s' o p :
-  handle_q roles q s u t k snd = (s', o, p) -> bal s s' o (if q then 0 else hp t k) \/ (bal s s' o 0 /\ get s u = None).
+  handle_q roles q s u t k snd = (s', o, p) ->
+  (exists a, get s u = Some a /\ bal s s' o (if q then 0 else wt (a_tok a) * hp t k)) \/ (bal s s' o 0 /\ get s u = None).
 Proof.
   unfold handle_q. destruct (get s u) as [a|]; [|intros H; inversion H; subst; right; split; [apply bal_refl|reflexivity]].
   destruct q.
-  - intros H; inversion H; subst. left. apply bal_refl.
+  - intros H; inversion H; subst. left. exists a. split; [reflexivity|apply bal_refl].
   - destruct (do_actions roles s u snd (find_rule (rules (role_of roles a)) t (a_inst a))) as [[s1 o1] p1] eqn:E.
-    intros H; inversion H; subst. left. apply do_actions_bal in E. unfold bal in *.
-    rewrite sentc_cons, handc_cons, deadc_cons. cbn [sent1 dead1]. unfold hand1, hp. destruct t; lia.
+    intros H; inversion H; subst. left. exists a. split; [reflexivity|]. apply do_actions_bal in E. unfold bal in *.
+    rewrite sentc_cons, handc_cons, deadc_cons. cbn [sent1 dead1]. unfold hand1, hp. destruct t; try lia; destruct (Nat.eqb k sn); lia.
 Qed.
 
 (* lifecycle handlers never consume a user message *)
@@ -267,8 +269,8 @@ Lemma handle_life_bal s u t snd s' o p :
   (forall n, t <> TP n) -> handle roles s u t 0 snd = (s', o, p) -> bal s s' o 0.
 Proof.
   intros Ht. unfold handle. destruct (get s u) as [a|]; [|intros H; inversion H; subst; apply bal_refl].
-  intros H. apply handle_q_bal in H. destruct H as [H|[H _]]; [|exact H].
-  destruct (is_sys (a_tok a)); [exact H|]. destruct t; try exact H. exfalso. eapply Ht. reflexivity.
+  intros H. apply handle_q_bal in H. destruct H as [(a' & _ & H)|[H _]]; [|exact H].
+  destruct (is_sys (a_tok a)); [exact H|]. destruct t; cbn [hp] in H; rewrite ?Nat.mul_0_r in H; try exact H. exfalso. eapply Ht. reflexivity.
 Qed.
 
 Lemma set_closed_pending s b c : pending {| actors := actors s; registry := registry s; provided := provided s; serial := serial s;
@@ -380,23 +382,30 @@ Qed.
 
 (* the user message e has been taken out of the mailbox by the caller *)
 Lemma process_user_bal s u e s' o p :
-  get s u <> None -> process_user roles s u e = (s', o, p) -> bal s s' o (pend_env e).
+  get s u <> None -> (forall a, get s u = Some a -> is_sys (e_rcv e) = false -> wt (a_tok a) = wt (e_rcv e)) ->
+  process_user roles s u e = (s', o, p) -> bal s s' o (pend_env e).
 Proof.
-  intros Hg. unfold process_user. destruct (get s u) as [a|] eqn:Ea; [|congruence].
+  intros Hg Hw. unfold process_user. destruct (get s u) as [a|] eqn:Ea; [|congruence].
   destruct (st_ge_terminating (a_st a)).
   - destruct (abyss_user s (e_snd e) (e_rcv e) (e_msg e)) as [s1 o1] eqn:E. intros H; inversion H; subst.
     apply abyss_user_bal in E. unfold bal, pend_env. lia.
   - unfold pend_env. destruct (e_msg e) as [n k| |]; cbn [is_probe].
-    + intros H. apply handle_q_bal in H. destruct H as [H|[_ H]]; [|congruence].
-      unfold nsys. destruct (is_sys (e_rcv e)); unfold bal, hp in *; lia.
+    + intros H. apply handle_q_bal in H. destruct H as [(a' & Ha' & H)|[_ H]]; [|congruence].
+      rewrite Ea in Ha'. inversion Ha'; subst a'. unfold nsys. destruct (is_sys (e_rcv e)) eqn:Es; [unfold bal, hp in *; lia|].
+      rewrite <- (Hw a eq_refl eq_refl). unfold bal, hp in *. destruct (Nat.eqb k sn); lia.
     + intros H; inversion H; subst. unfold bal. rewrite deliver_sys_pending. rewrite pending_upd_actor by keep.
       unfold sentc, handc, deadc; cbn [map list_sum fold_right]. lia.
     + intros H; inversion H; subst. unfold bal, sentc, handc, deadc; cbn [map list_sum fold_right]. lia.
 Qed.
 
-Lemma run_actor_bal s u s' o : run_actor roles s u = Some (s', o) -> bal s s' o 0.
+(* QW: the in-flight user message of every object weighs as much under its receiver field as under the address of the
+   object holding it (trivial for a constant weight; for an indicator weight it follows from "addressed to the holder") *)
+Definition QW (s : kstate) : Prop :=
+  forall u a e, get s u = Some a -> a_inflight a = Some (MU e) -> is_sys (e_rcv e) = false -> wt (a_tok a) = wt (e_rcv e).
+
+Lemma run_actor_bal s u s' o : QW s -> run_actor roles s u = Some (s', o) -> bal s s' o 0.
 Proof.
-  unfold run_actor. destruct (get s u) as [a|] eqn:Ea; [|discriminate].
+  intros HQ. unfold run_actor. destruct (get s u) as [a|] eqn:Ea; [|discriminate].
   destruct (a_inflight a) as [m|] eqn:Em; [|discriminate].
   set (s0 := upd_actor s u (w_inflight None)).
   assert (H0 : pending s0 + pend_inflight (Some m) = pending s).
@@ -415,7 +424,9 @@ Proof.
       * destruct (report_abnormal roles s1 u) as [[s2 o2] p2] eqn:E2. intros H; inversion H; subst.
         apply report_abnormal_bal in E2. unfold bal in *. rewrite sentc_app, handc_app, deadc_app. lia.
     + intros H; inversion H; subst. unfold bal in *. lia.
-  - destruct (process_user roles s0 u e) as [[s1 o1] p] eqn:E1. apply process_user_bal in E1; [|exact Hg0].
+  - destruct (process_user roles s0 u e) as [[s1 o1] p] eqn:E1. apply process_user_bal in E1; [|exact Hg0|].
+    2:{ intros a0 Ha0 Hs. unfold s0 in Ha0. rewrite (get_upd_actor_same s u (w_inflight None) a Ea) in Ha0. inversion Ha0; subst a0.
+        cbn [a_tok w_inflight]. eapply HQ; eassumption. }
     cbn [pend_inflight] in H0. destruct p.
     + destruct (crashed s1).
       * intros H; inversion H; subst. unfold bal in *. lia.
@@ -442,11 +453,11 @@ Qed.
 Lemma bal_normalize s s' o : bal s s' o 0 -> bal s (normalize s') o 0.
 Proof. unfold bal. rewrite normalize_pending. auto. Qed.
 
-Theorem kstep_bal s l s' o : kstep roles s l = Some (s', o) -> bal s s' o 0.
+Theorem kstep_bal s l s' o : QW s -> kstep roles s l = Some (s', o) -> bal s s' o 0.
 Proof.
-  destruct l; cbn [kstep].
+  intros HQ. destruct l; cbn [kstep].
   - destruct (run_actor roles s (Z.to_nat u)) as [[s1 o1]|] eqn:E; [|discriminate].
-    intros H; inversion H; subst. apply bal_normalize. eapply run_actor_bal; exact E.
+    intros H; inversion H; subst. apply bal_normalize. eapply run_actor_bal; [exact HQ|exact E].
   - destruct (next_serial s) as [s1 k] eqn:En.
     assert (Hp : pending s1 = pending s) by (change s1 with (fst (s1, k)); rewrite <- En; reflexivity).
     destruct (deliver_user s1 t rNone (UProbe n k)) as [s2 o2] eqn:E. intros H; inversion H; subst.
@@ -472,22 +483,31 @@ Qed.
 Fixpoint sum_over (f : list obs -> nat) (os : list (list obs)) : nat :=
   match os with [] => 0 | o :: t => f o + sum_over f t end.
 
-Theorem krun_conservation ls : forall s s' os,
-  krun roles s ls = Some (s', os) ->
+(* P: any predicate on states that is preserved by the steps of the kernel and implies QW *)
+Theorem krun_conservation (P : kstate -> Prop)
+  (P_step : forall s l s' o, P s -> kstep roles s l = Some (s', o) -> P s') (P_QW : forall s, P s -> QW s) ls : forall s s' os,
+  P s -> krun roles s ls = Some (s', os) ->
   pending s' + sum_over handc os + sum_over deadc os = pending s + sum_over sentc os.
 Proof.
-  induction ls as [|l t IH]; intros s s' os; cbn [krun].
+  induction ls as [|l t IH]; intros s s' os HP; cbn [krun].
   - intros H; inversion H; subst. cbn. lia.
   - destruct (kstep roles s l) as [[s1 o]|] eqn:E; [|discriminate].
     destruct (krun roles s1 t) as [[s2 os2]|] eqn:E2; [|discriminate].
-    intros H; inversion H; subst. apply kstep_bal in E. apply IH in E2. unfold bal in E. cbn [sum_over]. lia.
+    intros H; inversion H; subst. pose proof (P_step _ _ _ _ HP E) as HP1. apply kstep_bal in E; [|apply P_QW; exact HP].
+    apply (IH _ _ _ HP1) in E2. unfold bal in E. cbn [sum_over]. lia.
 Qed.
 
 End Cons.
 
 (* from the initial system (no message anywhere): for every serial, over every run,
    sent = handled + dead-lettered + still pending, counting messages addressed to user actors *)
+Definition w1 (_ : ref) : nat := 1.      (* every receiver *)
+
 Theorem conservation_from_init roles sn ls s' os :
   krun roles kinit ls = Some (s', os) ->
-  sum_over (sentc sn) os = sum_over (handc sn) os + sum_over (deadc sn) os + pending sn s'.
-Proof. intros H. apply (krun_conservation roles sn) in H. cbn in H. lia. Qed.
+  sum_over (sentc sn w1) os = sum_over (handc sn w1) os + sum_over (deadc sn w1) os + pending sn w1 s'.
+Proof.
+  intros H. apply (krun_conservation roles sn w1 (fun _ => True)) in H; [cbn in H; lia| | |exact I].
+  - intros; exact I.
+  - intros s _ u a e _ _ _. reflexivity.
+Qed.
